@@ -452,7 +452,8 @@ struct SetDriver : DriverBase<SetDriver<Set, K, N, MCmp, Which, Transparent>> {
                         skip();
                         return;
                     }
-                    expectTrap = true;
+                    expectTrap          = true;
+                    this->userCodeCheck = false;
                 } else {
                     // static_set documents a refusal: {_, false}, unchanged
                     ++ctx.faultsFired;
